@@ -16,7 +16,7 @@ func init() { register("C15", "other", checkC15) }
 
 func checkC15(w *World, r *Result) {
 	r.Explanation = "Decides structural necessary conditions on generator/go/randdata: TPL-C15f in every instantiation of the container templates each element is produced by the element generator: fixed arrays are filled by a loop over the whole array, slices by a loop over the whole freshly made slice, maps by l insertions of generated key and value; pointers return the address of a generated value (never nil); AGR-C15u the union template lists one generated value per member (lock-step append) and draws the index below len(Members); AGR-C15e the table-based enum template draws an index below len(choix) and returns choix[i], the choices being exactly the exported constants (AGR-C10b, TPL-3: no empty slot); AGR-C15s the struct loop skips exactly unexported fields and fields tagged gomacro-data:\"ignore\" before emitting anything for them, and assigns every other field from the generator named functionID(field type) (AGR-C01a); TPL-C15a termination: some cycle-capable constructor (slice, map, pointer, union) must be able to stop the recursion (zero length, or a conditional call) - today none can (known finding); TPL-1 templates parse. Does not decide: variation across calls, well-formedness of values as a run-time fact, the JSON round trip."
-	r.Rules = []string{"TPL-C15f", "AGR-C15u", "AGR-C15e", "AGR-C15s", "AGR-C10b", "AGR-C01a", "TPL-C15a", "TPL-1", "TPL-3", "AGR-C09c", "AGR-C11f", "GEN-ID", "AGR-C15d", "ALIAS-APPEND", "PRINTF", "CACHE-DROP", "MUT-AN", "AGR-C11c"}
+	r.Rules = []string{"TPL-C15f", "AGR-C15u", "AGR-C15e", "AGR-C15s", "AGR-C10b", "AGR-C01a", "TPL-C15a", "TPL-1", "TPL-3", "AGR-C09c", "AGR-C11f", "GEN-ID", "AGR-C15d", "AGR-C10r", "AGR-C10p", "ALIAS-APPEND", "PRINTF", "CACHE-DROP", "MUT-AN", "AGR-C11c"}
 	// the union table consumed by the templates: candidates are the defined named types of the scope, each once (rule shared with C11)
 	checkCandidates(w, r)
 	mutAnRule(w, r, func(rel string) bool { return rel == "generator/go/randdata" })
@@ -27,8 +27,20 @@ func checkC15(w *World, r *Result) {
 	checkFlatten(w, r)
 	// the union table the union template draws from (rules shared with C11), names of generic instantiations
 	checkMemberFilter(w, r)
+	// the enum table the enum template draws from: which packages are scanned (rules shared with C10)
+	checkSelectorRoot(w, r)
+	checkSelectorPrefix(w, r)
 	checkDeclaredOnEveryPath(w, r)
 	genIDRule(w, r, "generator/go/randdata")
+	// names first: they do not need the templates to be evaluated
+	sub := &Result{}
+	checkEnumConsumers(w, sub)
+	checkRandNames(w, sub)
+	for _, o := range sub.Obs {
+		if strings.HasPrefix(o.Func, "generator/go/randdata") {
+			r.add(o)
+		}
+	}
 	decls := extractDecls(w, "generator/go/randdata")
 	byFn := map[string][]*tplDecl{}
 	for _, d := range decls {
@@ -135,14 +147,6 @@ func checkC15(w *World, r *Result) {
 	r.cond(len(stop) > 0, "TPL-C15a", fg.Name, "a recursive type has a terminating generator", fnPos(w, fg),
 		"recursion can stop at: "+strings.Join(stop, ", "),
 		fmt.Sprintf("no constructor through which a type can refer to itself can stop the recursion: slices always have at least %d elements, maps at least %d, pointers always point to a generated value and the union template evaluates every member's generator before choosing one; the generator of any recursive type (e.g. struct{Children []T}) never returns", minLens["slice"], minLens["map"]))
-	sub := &Result{}
-	checkEnumConsumers(w, sub)
-	checkRandNames(w, sub)
-	for _, o := range sub.Obs {
-		if strings.HasPrefix(o.Func, "generator/go/randdata") {
-			r.add(o)
-		}
-	}
 	runTPLGo(w, r, "generator/go/randdata", 2)
 }
 
